@@ -383,4 +383,37 @@ example : Separated [1, 0, 0, 1] := by
 example : ¬ FlipSymmetric [1, 0, 0, 0] := by
   intro h; have := h 0 (by simp); simp at this
 
+/-! ### The hypothesis `Separated` is necessary (finding F23)
+
+`at_full_spec`, `isConstant_iff`, `sym_*_iff` assume that distinct entries differ by at least
+`f64::EPSILON`, because the library compares entries with the ABSOLUTE tolerance
+`(a - b).abs() < f64::EPSILON`. At the excluded point the property's literal reading fails, in the
+model and (replayed by the harness, mode `tolwit`) in the real code: the one-variable matrix
+`[0, ε⁻, 0, 0]` with `ε⁻ = (2^53 - 1)/2^105` (the binary64 number just below `f64::EPSILON`) is
+accepted, classified constant although it is not, and the lookup of its non-zero entry returns 0. -/
+
+def tolWitness : List Rat := [0, (9007199254740991 : Rat) / 40564819207303340847894502572032, 0, 0]
+
+theorem tolerance_witness :
+    Interaction.new tolWitness [0] = .ok (newResult tolWitness [0]) ∧
+    (newResult tolWitness [0]).isConstant = true ∧
+    ¬ AllEq tolWitness ∧
+    (newResult tolWitness [0]).atP [true] [false] = .ok 0 ∧
+    tolWitness[indexFromBits ([false] ++ [true])]? ≠ some 0 ∧
+    ¬ Separated tolWitness := by
+  refine ⟨?_, by decide +kernel, ?_, by decide +kernel, by decide +kernel, ?_⟩
+  · rw [new_eq, if_pos]
+    refine ⟨?_, by simp, by simp [tolWitness]⟩
+    intro x hx
+    simp only [tolWitness, List.mem_cons, List.not_mem_nil, or_false] at hx
+    rcases hx with rfl | rfl | rfl | rfl <;> norm_num
+  · intro h
+    have := h 0 (by simp [tolWitness]) ((9007199254740991 : Rat) / 40564819207303340847894502572032)
+      (by simp [tolWitness])
+    norm_num at this
+  · intro h
+    have := h 0 (by simp [tolWitness]) ((9007199254740991 : Rat) / 40564819207303340847894502572032)
+      (by simp [tolWitness])
+    revert this; simp [eps, absR]; norm_num
+
 end Qmc.C16
